@@ -11,6 +11,7 @@ import (
 	"github.com/junioryono/godi/v4"
 	"github.com/junioryono/godi/v4/verifh/core"
 	"github.com/junioryono/godi/v4/verifh/eng"
+	"github.com/junioryono/godi/v4/verifh/pool"
 	"github.com/junioryono/godi/v4/verifh/rt"
 )
 
@@ -278,12 +279,35 @@ func runC02(c *eng.Ctx) {
 		rng := core.CaseRng(c.Seed, "C02w", idx)
 		c.R.Begin(idx)
 		m := core.NewModel(f.spec)
-		r := core.NewRun(f.spec, m, nil, nil)
+		// a third of the rounds: the first invocation(s) of the scoped constructors fail while
+		// other goroutines are already queued behind them ("a failed construction yields no
+		// instance and may be retried" — the retry must still be the only construction)
+		var faults []rt.Fault
+		faulted := k%3 == 2
+		if faulted {
+			for i, reg := range f.spec.Regs {
+				if reg.Life != godi.Scoped || i%2 == 1 && k%2 == 0 {
+					continue
+				}
+				kind := rt.FPanic
+				if pool.Ctors[reg.Ctor].HasErr {
+					kind = rt.FErr
+				}
+				faults = append(faults, rt.Fault{Ctor: reg.Ctor, Nth: 1, Kind: kind})
+				if k%5 == 0 {
+					faults = append(faults, rt.Fault{Ctor: reg.Ctor, Nth: 2, Kind: kind})
+				}
+			}
+			c.R.Count("window_rounds_with_failing_first_construction", 1)
+		}
+		r := core.NewRun(f.spec, m, faults, nil)
 		// constructors yield so that several goroutines sit in the miss window
 		r.Rec.SetHook(func(hp rt.HookPoint) {
 			if hp.Where == "ctor" {
 				runtime.Gosched()
-				if hp.Nth%2 == 0 {
+				if faulted {
+					time.Sleep(time.Duration(150+hp.Ctor%100) * time.Microsecond)
+				} else if hp.Nth%2 == 0 {
 					time.Sleep(time.Duration(20+hp.Ctor%50) * time.Microsecond)
 				}
 			}
